@@ -14,6 +14,7 @@ import ChibiVerif.Lemmas.PPSubst
 import ChibiVerif.Lemmas.C09Fuel
 import ChibiVerif.Lemmas.C09Stringize
 import ChibiVerif.Lemmas.C09FuelMono
+import ChibiVerif.Lemmas.C09Placemarker
 
 namespace ChibiVerif.Props.C09
 open ChibiVerif.PP
@@ -243,52 +244,104 @@ def modelSubst (lx : String → LexOne) (full : List Tok → List Tok) (body : L
     Except Err (List Tok) :=
   (subst lx (fun st ts => .ok (full ts, st)) {} body args false).map (·.1)
 
-/-- **C09 (substitution), full statement**: whenever C11 6.10.3.1–6.10.3.3 (Spec/PPSpec.lean, with placemarkers)
-    defines the replacement of an invocation, `subst` produces exactly those spellings — for every lexer, every
-    pre-expander, every replacement list and every argument list.  FALSE for chibicc: see
-    `Findings.C09.C09_finding_placemarker` (known finding C09-placemarker, the only one left: the second refutation,
-    C09-stringize-backslash-outside-literal, was repaired in /repo by `fix:` 6fecbd6 — `C09_stringize_spec` below,
-    `Findings.C09.repaired_stringize_backslash`). -/
+/-- **C09 (substitution), full statement over every construct the property names** (C11 6.10.3.1–6.10.3.3 plus the C2x
+    `__VA_OPT__` and the GNU `, ## __VA_ARGS__` as Spec/PPSpec.lean reads them): whenever the specification defines the
+    replacement of an invocation, `subst` produces exactly those spellings — for every lexer, every pre-expander, every
+    replacement list and every argument list.
+    Status after `fix:` 5a15c0f (placemarkers) and 6fecbd6 (`#`): **proved for every replacement list that is C11**
+    (`C09_subst_spec` below).  NOT a theorem as it stands, and not because of C11: the two extensions have no C11 text and
+    chibicc reads them differently from the specification (= gcc 12) — `Findings.C09.statement_fails_outside_C11`:
+    `, ## __VA_ARGS__` pre-expands the variable argument (gcc does not), and `__VA_OPT__` tests the variable argument
+    before its macro replacement (gcc / C2x after it).  The check counts these runs as latitude and does not compare
+    them.  The former refutations inside C11 (`t(,,)`: C09-placemarker; `str(: @\n)`: C09-stringize-backslash-outside-
+    literal) are repaired in /repo and kept as witnesses of the OLD code in Findings/C09.lean. -/
 def C09_subst_spec_Statement : Prop :=
   ∀ (lx : String → LexOne) (full : List Tok → List Tok) (body : List Tok) (args : List MacroArg) (s : List Tok),
     ChibiVerif.Spec.PPSpec.subst lx full true body args = .ok s →
       ∃ m, modelSubst lx full body args = .ok m ∧ spell m = spell s
 
 /-- **C09 (substitution), proved part**: for every lexer, every pre-expander, every replacement list and every
-    argument list *outside the region of the one known finding* — `NoPlacemarkerChain body args` (no `p ## q ##`
-    with both arguments empty: C09-placemarker) — and without the constructs that
-    are not C11 6.10.3 or are unspecified by it (`NoExtension`: GNU `, ## __VA_ARGS__`, `__VA_OPT__(`, `## ##`,
-    `## #`), whenever the specification defines the replacement, `subst` produces exactly its spellings; stringized
-    arguments are arbitrary (`\` and `"` inside and outside literals).
-    Induction over the replacement list with "newest emitted token vs newest element of the paste stack" as
-    invariant (Lemmas/PPSubst.lean, `subst_sim`).
-    MISSING: `__VA_OPT__` and the GNU comma (specified in Spec/PPSpec.lean, tied by the check, not proved);
-    the converse direction (the specification rejects whatever `subst` rejects) is not claimed. -/
+    argument list — empty arguments and chains of `##` over empty arguments included (placemarkers, 6.10.3.3p2-3; the
+    hypothesis `NoPlacemarkerChain` of the former known finding C09-placemarker is gone) — whenever the specification
+    defines the replacement, `subst` produces exactly its spellings; stringized arguments are arbitrary.
+    The two hypotheses that are left exclude nothing of C11 6.10.3 that is defined:
+    * `NoExtension body args` (decidable): no `, ##` in front of the *variable* parameter (GNU comma elision), no
+      `__VA_OPT__ (` (C2x), and no `## #` (C11 6.10.3.2p2: "the order of evaluation of # and ## operators is
+      unspecified").  `## ##` is no longer excluded: the specification rejects it and the theorem holds vacuously there.
+    * `FreshArgs args`: the cache `arg->expanded` of every argument is empty — true of whatever `read_macro_args` returns
+      (`C09_subst_spec` removes it).
+    Induction over the replacement list with "newest emitted token vs newest element of the paste stack" as invariant;
+    a run of empty `##` operands is consumed in one simulation step (Lemmas/PPSubst.lean, `subst_sim`, `skip_sim`).
+    MISSING for the full statement: `__VA_OPT__` and the GNU comma (specified in Spec/PPSpec.lean, tied by the check, not
+    proved; on them the statement fails for reasons outside C11, see `C09_subst_spec_Statement`); the converse direction
+    (the specification rejects whatever `subst` rejects) is not claimed. -/
 theorem C09_subst_spec_partial (lx : String → LexOne) (full : List Tok → List Tok) (body : List Tok)
     (args : List MacroArg) (s : List Tok)
-    (hpm : NoPlacemarkerChain body args)
     (hext : NoExtension body args) (hfresh : FreshArgs args)
     (hspec : ChibiVerif.Spec.PPSpec.subst lx full true body args = .ok s) :
     ∃ m, modelSubst lx full body args = .ok m ∧ spell m = spell s := by
-  obtain ⟨m, st', hm, hs⟩ := subst_spec_of_region lx full body args s hpm hext hfresh hspec
+  obtain ⟨m, st', hm, hs⟩ := subst_spec_of_region lx full body args s hext hfresh hspec
   refine ⟨m, ?_, hs⟩
   unfold modelSubst
   have : (fun (st : St) (ts : List Tok) => (Except.ok (full ts, st) : Except Err (List Tok × St))) = purePP full := rfl
   rw [this, hm]
   rfl
 
-/-- non-vacuity: `#define g(x,y,z) a x ## y ## z # x y` with `g(1, ,3 4)` satisfies all three hypotheses (an empty
+/-- non-vacuity: `#define g(x,y,z) a x ## y ## z # x y` with `g(1, ,3 4)` satisfies both hypotheses (an empty
     operand in the middle of a `##` chain, a stringized and a pre-expanded parameter), the specification defines
     the result, and it is `a 13 4 "1"` followed by the (empty) expansion of `y` -/
 example :
     let body : List Tok := [tk "a", tk "x", tk "##" .punct, tk "y", tk "##" .punct, tk "z", tk "#" .punct, tk "x", tk "y"]
     let args : List MacroArg := [{ name := "x", toks := [tk "1" .num] }, { name := "y", toks := [] },
                                  { name := "z", toks := [tk "3" .num, tk "4" .num] }]
-    NoPlacemarkerChain body args ∧ NoExtension body args ∧ FreshArgs args ∧
+    NoExtension body args ∧ FreshArgs args ∧
     (ChibiVerif.Spec.PPSpec.subst Lex.lexOne id true body args).map spell
       = .ok [(.ident, "a"), (.num, "13"), (.num, "4"), (.str, "\"1\"")] ∧
     (modelSubst Lex.lexOne id body args).map spell
       = .ok [(.ident, "a"), (.num, "13"), (.num, "4"), (.str, "\"1\"")] := by decide
+
+/-- non-vacuity inside the former region of C09-placemarker: C11 6.10.3.5 EXAMPLE 5, `#define t(x,y,z) x ## y ## z` with
+    `t(,,)` and `t(,,12)`, and a chain behind another token, `a x ## y ## z` with `(,,3)` (the old code gave `a3`) -/
+example :
+    let t : List Tok := [tk "x", tk "##" .punct, tk "y", tk "##" .punct, tk "z"]
+    let arg (x y z : List Tok) : List MacroArg := [{ name := "x", toks := x }, { name := "y", toks := y }, { name := "z", toks := z }]
+    hasPlacemarkerChain (arg [] [] []) t = true ∧ NoExtension t (arg [] [] []) ∧ FreshArgs (arg [] [] []) ∧
+    (ChibiVerif.Spec.PPSpec.subst Lex.lexOne id true t (arg [] [] [])).map spell = .ok [] ∧
+    (modelSubst Lex.lexOne id t (arg [] [] [])).map spell = .ok [] ∧
+    (ChibiVerif.Spec.PPSpec.subst Lex.lexOne id true t (arg [] [] [tk "12" .num])).map spell = .ok [(.num, "12")] ∧
+    (modelSubst Lex.lexOne id t (arg [] [] [tk "12" .num])).map spell = .ok [(.num, "12")] ∧
+    (ChibiVerif.Spec.PPSpec.subst Lex.lexOne id true (tk "a" :: t) (arg [] [] [tk "3" .num])).map spell = .ok [(.ident, "a"), (.num, "3")] ∧
+    (modelSubst Lex.lexOne id (tk "a" :: t) (arg [] [] [tk "3" .num])).map spell = .ok [(.ident, "a"), (.num, "3")] := by decide
+
+/-- the replacement list is C11 as far as `subst` is concerned (a Boolean function of the replacement list and of which
+    parameter is the variable one): no `, ##` in front of the variable parameter, no `__VA_OPT__ (`, no `## #` -/
+def isC11 (body : List Tok) (args : List MacroArg) : Bool := !anyBad true args body
+
+/-- **C09 (substitution), C11.**  For every function-like macro (parameters `ps`, optional variable parameter `va`), every
+    invocation text that `read_macro_args` accepts, every lexer behind `##` and every pre-expander: if the replacement list
+    is C11 (`isC11`, decidable: it only excludes the GNU comma in front of the variable parameter, C2x `__VA_OPT__ (`, and
+    `## #`, whose order of evaluation C11 6.10.3.2p2 leaves unspecified), then whenever C11 6.10.3.1–6.10.3.3
+    (Spec/PPSpec.lean: argument substitution, `#`, `##` left to right WITH placemarkers, placemarker removal) defines the
+    replacement, `subst` produces exactly its token spellings.  This is `C09_subst_spec_Statement` restricted to C11
+    replacement lists, with the arguments taken from the model's own `read_macro_args` instead of assumed fresh. -/
+theorem C09_subst_spec (lx : String → LexOne) (full : List Tok → List Tok) (ps : List String) (va : Option String)
+    (ts : List Tok) (args : List MacroArg) (rp : Tok) (rest : List Tok) (body s : List Tok)
+    (hargs : readMacroArgs ps va ts = .ok (args, rp, rest))
+    (hc11 : isC11 body args = true)
+    (hspec : ChibiVerif.Spec.PPSpec.subst lx full true body args = .ok s) :
+    ∃ m, modelSubst lx full body args = .ok m ∧ spell m = spell s :=
+  C09_subst_spec_partial lx full body args s (by simpa [isC11, NoExtension] using hc11)
+    (readMacroArgs_fresh hargs) hspec
+
+/-- non-vacuity: `#define t(x,y,z) x ## y ## z` (C11 6.10.3.5 EXAMPLE 5) invoked as `t(10,,)`: `read_macro_args` accepts
+    `10,,)`, the replacement list is C11, the specification defines the result `10`, and so does the model -/
+example :
+    let t : List Tok := [tk "x", tk "##" .punct, tk "y", tk "##" .punct, tk "z"]
+    let ts : List Tok := [tk "10" .num, tk "," .punct, tk "," .punct, tk ")" .punct]
+    let args : List MacroArg := [{ name := "x", toks := [tk "10" .num] }, { name := "y", toks := [] }, { name := "z", toks := [] }]
+    readMacroArgs ["x", "y", "z"] none ts = .ok (args, tk ")" .punct, []) ∧ isC11 t args = true ∧
+    (ChibiVerif.Spec.PPSpec.subst Lex.lexOne id true t args).map spell = .ok [(.num, "10")] ∧
+    (modelSubst Lex.lexOne id t args).map spell = .ok [(.num, "10")] := by decide
 
 /-- non-vacuity inside the former second region: C11 6.10.3.5 EXAMPLE 4, `#define str(s) # s` with `str(: @\n)` — a `\`
     outside any literal — satisfies the hypotheses, and model and specification both give `": @\n"` -/
@@ -296,7 +349,7 @@ example :
     let body : List Tok := [tk "#" .punct, tk "s"]
     let args : List MacroArg := [{ name := "s", toks := [tk ":" .punct, { kind := .punct, text := "@", hasSpace := true },
                                                          tk "\\" .punct, tk "n"] }]
-    NoPlacemarkerChain body args ∧ NoExtension body args ∧ FreshArgs args ∧ ¬ StringizeLiteralSafe body args ∧
+    NoExtension body args ∧ FreshArgs args ∧ ¬ StringizeLiteralSafe body args ∧
     (ChibiVerif.Spec.PPSpec.subst Lex.lexOne id true body args).map spell = .ok [(.str, "\": @\\n\"")] ∧
     (modelSubst Lex.lexOne id body args).map spell = .ok [(.str, "\": @\\n\"")] := by decide
 
